@@ -48,6 +48,11 @@ func describeStamp(s uint64) string {
 	if s == 0 {
 		return "initial"
 	}
+	if s>>56 == 1 { // shaped layer, second disk of a twin history
+		if a, ok := stampAddr(s &^ (1 << 56)); ok {
+			return fmt.Sprintf("w(disk=1,addr=%d,client=%d,seq=%d)", a, int(s>>24&0xFFFF)-1, int(s&0xFFFFFF)-1)
+		}
+	}
 	a, ok := stampAddr(s)
 	if !ok || s>>56 != 0 {
 		return fmt.Sprintf("garbage(%#x)", s)
@@ -832,7 +837,7 @@ func runC10(r *core.Run) (bool, string) {
 	nPlain := r.Pick(200, 10000)
 	nRace := r.Pick(200, 4000)
 	perChild := r.Pick(10, 50)
-	nShape := r.Pick(c10ShapeQuick, 16000)
+	nShape := r.Pick(c10ShapeQuick, 12000)
 	if !layer("plain") {
 		nPlain = 0
 	}
